@@ -26,6 +26,9 @@ BUILD = VERIF / "build"
 EVIDENCE = VERIF / "evidence"
 REPLAYS = VERIF / "replays"
 REPO = Path(os.environ.get("VERIF_REPO", "/repo"))
+if REPO.resolve() != Path("/repo"):
+    # a run against a scratch clone (seeded self-test): its evidence never replaces that of /repo itself
+    EVIDENCE = BUILD / "scratch_evidence" / REPO.name
 PYTHON = "/venv/bin/python"
 NPROC = int(os.environ.get("VERIF_JOBS", "16"))
 
@@ -312,7 +315,7 @@ class Report:
     def finish(self, level_extra=None):
         wall = time.time() - self.t0
         REPLAYS.mkdir(exist_ok=True)
-        EVIDENCE.mkdir(exist_ok=True)
+        EVIDENCE.mkdir(parents=True, exist_ok=True)
         for kf in self.known_hit:
             print(f"KNOWN-FINDING: property={self.cid} {kf['what']}")
         lines = []
